@@ -55,6 +55,7 @@ def run(ctx):
     n = 3000 if ctx.thorough else 300
     exact, mutants = common.gen_cases(ctx, FAMS, n, corrupt_limit=8)
     common.run_exact(ctx, exact)
+    common.run_exact(ctx, common.long_tails(ctx, exact))
     common.run_differential(ctx, mutants, common.proj_value)
     # all 256 curve types: only 1 (explicit prime) and 3 (named curve) are accepted, everything else -> Switch
     cases = []
